@@ -46,7 +46,7 @@ def inst(n, np_, count, tiers, st=0, site=0, pre=0, wsteps=2, early=0, timeout=1
     uf[_RESIZE] = max(4, npre + 3)
     return {
         'name': name, 'src': 'resize.cpp', 'engine': 'cbmc', 'shims': ['moodycamel'],
-        'repo_sources': _SRC, 'rt_defs': {'VF_HAVE_THREAD_MODEL': 1}, 'models': ['aligned_alloc'],
+        'repo_sources': _SRC, 'preinclude': ['harness/C03/deque_model.h'], 'rt_defs': {'VF_HAVE_THREAD_MODEL': 1, 'VF_TYPED_STORE_SLOT': 1}, 'models': ['aligned_alloc'],
         # -D for every translation unit of the solver run AND of the native replay
         'defs': {'VF_N': n, 'VF_NP': np_, 'VF_COUNT': count, 'VF_SET': st, 'VF_SITE': site, 'VF_PRE': pre,
                  'VF_WSTEPS': wsteps, 'VF_EARLY': early, 'VF_MQ_CAP': 6, 'DISPENSO_VERIF': 1,
@@ -64,12 +64,27 @@ def inst(n, np_, count, tiers, st=0, site=0, pre=0, wsteps=2, early=0, timeout=1
 
 
 INSTANCES = [
+    # the race of the property statement: shrink 2 -> 1 between the producer's ring-count load and its pushes
     inst(2, 1, 2, ['quick', 'thorough'], site=2),
+    # control: same history without any resize
+    inst(2, 9, 2, ['quick', 'thorough']),
+    # the other scenarios (literal sizes); site 0 = symbolic choice of the hook site
+    inst(2, 1, 2, ['thorough'], site=1),
+    inst(2, 0, 2, ['thorough']),
+    inst(2, 3, 2, ['thorough']),
+    inst(1, 0, 1, ['thorough']),
+    inst(1, 2, 1, ['thorough']),
+    inst(2, 1, 1, ['thorough']),
+    inst(2, 1, 2, ['thorough'], st=1, site=2),
+    inst(2, 0, 2, ['thorough'], st=1),
+    # work already pending when the race happens: direct task in the central queue + placed task in a parked
+    # worker's steal ring (resize must drain both; nobody else polls a steal ring of a 0-thread pool)
+    inst(2, 0, 2, ['thorough'], site=2, pre=3, wsteps=3),
+    inst(2, 3, 2, ['thorough'], site=2, pre=3, wsteps=3),
+    # an earlier fork-join still sitting in the rings when the resize runs
+    inst(2, 1, 1, ['thorough'], site=2, pre=4),
+    inst(2, 9, 2, ['thorough'], pre=3, wsteps=3),
+    # three threads
+    inst(3, 2, 3, ['thorough'], site=2),
+    inst(3, 1, 2, ['thorough'], site=2),
 ]
-
-import copy as _copy
-for _p in (1, 2, 3, 4):
-    _i = _copy.deepcopy(INSTANCES[0])
-    _i.update({'name': 'probe%d' % _p, 'src': 'probe.cpp', 'tiers': ['probe'], 'timeout': 600})
-    _i['defs'] = dict(_i['defs'], VF_PROBE=_p)
-    INSTANCES.append(_i)
